@@ -1,0 +1,107 @@
+//go:build verif
+
+package wasm
+
+// Machine-checked contracts for the govc verifier (/verif). Comment-only; compiled only with -tags verif.
+
+// Custom contract-to-chain messages (C12): on the main network and on the test network each privileged message is
+// accepted only from the designated governance contract address; any other sender is rejected before anything is done.
+//@ func (m *CustomMessenger) whitelistAssetLocker
+//@   property C12
+//@   fails_if #c12-governance-contract-only-mainnet: chainid() == "comdex-1" && addrstr(contractAddr) != comdex1[0]
+//@   fails_if #c12-governance-contract-only-testnet: chainid() == "comdex-test3" && addrstr(contractAddr) != testnet3[0]
+
+//@ func (m *CustomMessenger) whitelistAppIDLockerRewards
+//@   property C12
+//@   fails_if #c12-governance-contract-only-mainnet: chainid() == "comdex-1" && addrstr(contractAddr) != comdex1[0]
+//@   fails_if #c12-governance-contract-only-testnet: chainid() == "comdex-test3" && addrstr(contractAddr) != testnet3[0]
+
+//@ func (m *CustomMessenger) whitelistAppIDVaultInterest
+//@   property C12
+//@   fails_if #c12-governance-contract-only-mainnet: chainid() == "comdex-1" && addrstr(contractAddr) != comdex1[0]
+//@   fails_if #c12-governance-contract-only-testnet: chainid() == "comdex-test3" && addrstr(contractAddr) != testnet3[0]
+
+//@ func (m *CustomMessenger) AddExtendedPairsVault
+//@   property C12
+//@   fails_if #c12-governance-contract-only-mainnet: chainid() == "comdex-1" && addrstr(contractAddr) != comdex1[0]
+//@   fails_if #c12-governance-contract-only-testnet: chainid() == "comdex-test3" && addrstr(contractAddr) != testnet3[0]
+
+//@ func (m *CustomMessenger) SetCollectorLookupTable
+//@   property C12
+//@   fails_if #c12-governance-contract-only-mainnet: chainid() == "comdex-1" && addrstr(contractAddr) != comdex1[0]
+//@   fails_if #c12-governance-contract-only-testnet: chainid() == "comdex-test3" && addrstr(contractAddr) != testnet3[0]
+
+//@ func (m *CustomMessenger) SetAuctionMappingForApp
+//@   property C12
+//@   fails_if #c12-governance-contract-only-mainnet: chainid() == "comdex-1" && addrstr(contractAddr) != comdex1[0]
+//@   fails_if #c12-governance-contract-only-testnet: chainid() == "comdex-test3" && addrstr(contractAddr) != testnet3[0]
+
+//@ func (m *CustomMessenger) UpdatePairsVault
+//@   property C12
+//@   fails_if #c12-governance-contract-only-mainnet: chainid() == "comdex-1" && addrstr(contractAddr) != comdex1[0]
+//@   fails_if #c12-governance-contract-only-testnet: chainid() == "comdex-test3" && addrstr(contractAddr) != testnet3[0]
+
+// (UpdateCollectorLookupTable carries the same guard; it is not under contract because its body pays out locker savings
+// through a callee whose data assumptions cannot be established at this call site.)
+
+//@ func (m *CustomMessenger) RemoveWhitelistAssetLocker
+//@   property C12
+//@   fails_if #c12-governance-contract-only-mainnet: chainid() == "comdex-1" && addrstr(contractAddr) != comdex1[0]
+//@   fails_if #c12-governance-contract-only-testnet: chainid() == "comdex-test3" && addrstr(contractAddr) != testnet3[0]
+
+//@ func (m *CustomMessenger) RemoveWhitelistAppIDVaultInterest
+//@   property C12
+//@   fails_if #c12-governance-contract-only-mainnet: chainid() == "comdex-1" && addrstr(contractAddr) != comdex1[0]
+//@   fails_if #c12-governance-contract-only-testnet: chainid() == "comdex-test3" && addrstr(contractAddr) != testnet3[0]
+
+//@ func (m *CustomMessenger) WhitelistAppIDLiquidation
+//@   property C12
+//@   fails_if #c12-governance-contract-only-mainnet: chainid() == "comdex-1" && addrstr(contractAddr) != comdex1[0]
+//@   fails_if #c12-governance-contract-only-testnet: chainid() == "comdex-test3" && addrstr(contractAddr) != testnet3[0]
+
+//@ func (m *CustomMessenger) RemoveWhitelistAppIDLiquidation
+//@   property C12
+//@   fails_if #c12-governance-contract-only-mainnet: chainid() == "comdex-1" && addrstr(contractAddr) != comdex1[0]
+//@   fails_if #c12-governance-contract-only-testnet: chainid() == "comdex-test3" && addrstr(contractAddr) != testnet3[0]
+
+//@ func (m *CustomMessenger) AddAuctionParams
+//@   property C12
+//@   fails_if #c12-governance-contract-only-mainnet: chainid() == "comdex-1" && addrstr(contractAddr) != comdex1[0]
+//@   fails_if #c12-governance-contract-only-testnet: chainid() == "comdex-test3" && addrstr(contractAddr) != testnet3[0]
+
+//@ func (m *CustomMessenger) BurnGovTokensForApp
+//@   property C12
+//@   fails_if #c12-governance-contract-only-mainnet: chainid() == "comdex-1" && addrstr(contractAddr) != comdex1[0]
+//@   fails_if #c12-governance-contract-only-testnet: chainid() == "comdex-test3" && addrstr(contractAddr) != testnet3[0]
+
+//@ func (m *CustomMessenger) AddESMTriggerParams
+//@   property C12
+//@   fails_if #c12-governance-contract-only-mainnet: chainid() == "comdex-1" && addrstr(contractAddr) != comdex1[0]
+//@   fails_if #c12-governance-contract-only-testnet: chainid() == "comdex-test3" && addrstr(contractAddr) != testnet3[0]
+
+//@ func (m *CustomMessenger) ExecuteAddEmissionRewards
+//@   property C12
+//@   fails_if #c12-governance-contract-only-mainnet: chainid() == "comdex-1" && addrstr(contractAddr) != comdex1[1]
+//@   fails_if #c12-governance-contract-only-testnet: chainid() == "comdex-test3" && addrstr(contractAddr) != testnet3[1]
+
+//@ func (m *CustomMessenger) ExecuteAddEmissionPoolRewards
+//@   property C12
+//@   fails_if #c12-governance-contract-only-mainnet: chainid() == "comdex-1" && addrstr(contractAddr) != comdex1[1]
+//@   fails_if #c12-governance-contract-only-testnet: chainid() == "comdex-test3" && addrstr(contractAddr) != testnet3[1]
+
+//@ func (m *CustomMessenger) ExecuteFoundationEmission
+//@   property C12
+//@   fails_if #c12-governance-contract-only-mainnet: chainid() == "comdex-1" && addrstr(contractAddr) != comdex1[1]
+//@   fails_if #c12-governance-contract-only-testnet: chainid() == "comdex-test3" && addrstr(contractAddr) != testnet3[1]
+
+//@ func (m *CustomMessenger) ExecuteMsgRebaseMint
+//@   property C12
+//@   fails_if #c12-governance-contract-only-mainnet: chainid() == "comdex-1" && addrstr(contractAddr) != comdex1[1]
+//@   fails_if #c12-governance-contract-only-testnet: chainid() == "comdex-test3" && addrstr(contractAddr) != testnet3[1]
+
+//@ func (m *CustomMessenger) ExecuteMsgGetSurplusFund
+//@   property C12
+//@   requires #fee-book: forall a, b :: ite(K("collector").GetNetFeeCollectedData(ctx, a, b).1, K("collector").GetNetFeeCollectedData(ctx, a, b).0.NetFeesCollected, 0) >= 0
+//@   fails_if #c12-governance-contract-only-mainnet: chainid() == "comdex-1" && addrstr(contractAddr) != comdex1[1]
+//@   fails_if #c12-governance-contract-only-testnet: chainid() == "comdex-test3" && addrstr(contractAddr) != testnet3[1]
+
